@@ -193,7 +193,7 @@ def check_loss(ctx: Ctx, case):
         spec.get(k) not in (None, v) for k, v in (("p", 2), ("cov", "identity"), ("standardise", False), ("calc", None),
                                                    ("filter", "gaussian"), ("f", 0.8), ("nb_values", None),
                                                    ("nb_word_lengths", None), ("h", "silverman")))
-    classes = [f"E={E}", f"D={D}"] + [f"{k}={spec[k] if isinstance(spec[k], (str, int, float, bool, type(None))) else 'matrix'}"
+    classes = [f"E={E}", f"D={D}", str(sim.dtype)] + [f"{k}={spec[k] if isinstance(spec[k], (str, int, float, bool, type(None))) else 'matrix'}"
                                       for k in ("p", "cov", "filter", "h", "standardise", "calc") if k in spec]
     if spec.get("filters") is not None:
         classes.append("filters")
